@@ -3,6 +3,7 @@
 Running the implementation (scratch build) on many cases in worker processes.
 The scratch build is imported in the parent before the pool forks.
 """
+import gc
 import multiprocessing as mp
 import os
 import re
@@ -54,8 +55,13 @@ def pmap(fn, work, chunk=200, procs=None):
     ranges = [(i, min(len(work), i + chunk))
               for i in range(0, len(work), chunk)]
     ctx = mp.get_context('fork')
-    with ctx.Pool(min(procs, len(ranges))) as pool:
-        parts = pool.map(_run_range, ranges, 1)
+    gc.collect()
+    gc.freeze()         # keep copy-on-write pages of the parent untouched
+    try:
+        with ctx.Pool(min(procs, len(ranges))) as pool:
+            parts = pool.map(_run_range, ranges, 1)
+    finally:
+        gc.unfreeze()
     out = []
     for p in parts:
         out.extend(p)
